@@ -478,10 +478,10 @@ class Counts(_Base):
                         for sel in sels:
                             if sum(n) >= 3 and (only_snvs or dot) and tier == "quick" and tag == "HP":
                                 continue
-                            if sum(n) >= 4 and (only_snvs or (tag == "HP" and dot)):
-                                continue  # 4 records: ~10^5 paths per shape, kept to the option combinations that change the reader's behaviour
+                            if sum(n) >= 4 and only_snvs:
+                                continue  # 4 records: all SNVs (the SNV/indel choice alone would multiply the ~10^5 paths per shape by 16)
                             menu = FULL_MENU_PS if tag == "PS" else FULL_MENU_HP
-                            base = dict(n=list(n), tag=tag, dot=dot, only_snvs=only_snvs, chromosomes=sel, snv=True, menu=menu)
+                            base = dict(n=list(n), tag=tag, dot=dot, only_snvs=only_snvs, chromosomes=sel, snv=sum(n) < 4, menu=menu)
                             if sum(n) >= 4:
                                 out += [dict(base, cls0=c) for c in menu]
                             else:
@@ -490,7 +490,7 @@ class Counts(_Base):
 
     def bounds(self, tier):
         sh = self.shapes(tier)
-        return "%d shapes: <= %d records on <= 2 chromosomes, symbolic positions in [0,100000], every call class of %s per record, SNV/indel per record, PS and HP encodings, tag key omitted or '.', --only-snvs on/off, --chromosome in {none, chr1, chr2, 'chr2,chr1'}" % (len(sh), max(sum(s["n"]) for s in sh), FULL_MENU_PS)
+        return "%d shapes: <= %d records on <= 2 chromosomes, symbolic positions in [0,100000], every call class of %s per record, SNV/indel per record (<= 3 records; all SNVs for 4), PS and HP encodings, tag key omitted or '.', --only-snvs on/off, --chromosome in {none, chr1, chr2, 'chr2,chr1'}" % (len(sh), max(sum(s["n"]) for s in sh), FULL_MENU_PS)
 
     def cover_input(self, e, recs, shape):
         sets = {}
